@@ -31,8 +31,10 @@ type VChan struct {
 
 	in         chan inItem
 	closeCh    chan struct{}
-	closeErr   error // what Close reports (see FailClose)
-	peerClosed bool  // only touched by the scenario's root goroutine
+	closeErr   error    // what Close reports (see FailClose)
+	held       [][]byte // the slices Send was given (aliases) ...
+	heldCopy   [][]byte // ... and what they held then
+	peerClosed bool     // only touched by the scenario's root goroutine
 
 	mu          sync.Mutex
 	closed      int
@@ -91,7 +93,14 @@ func (c *VChan) Closes() int { c.mu.Lock(); defer c.mu.Unlock(); return c.closed
 
 // Send implements channel.Channel.
 func (c *VChan) Send(b []byte) error {
+	c.checkHeld()
 	c.Rec.Log("SB", "ch", c.Name)
+	c.mu.Lock()
+	if len(c.held) < 64 {
+		c.held = append(c.held, b) // the slice itself, not a copy: see checkHeld
+		c.heldCopy = append(c.heldCopy, append([]byte(nil), b...))
+	}
+	c.mu.Unlock()
 	// Like the header framings, this channel assembles the outgoing frame in one buffer of its own: it is safe for one
 	// sender at a time and no more (the contract of channel.Channel).  A Send that overlaps another one transmits
 	// whatever the buffer holds when it gets to write.
@@ -186,6 +195,7 @@ func SetClosedSentinel(err error) { errChannelClosed = err }
 
 // Close implements channel.Channel.
 func (c *VChan) Close() error {
+	c.checkHeld()
 	c.Rec.Log("CB", "ch", c.Name)
 	if h := c.InCloseHook; h != nil {
 		h()
@@ -203,6 +213,25 @@ func (c *VChan) Close() error {
 	cerr := c.closeErr
 	c.mu.Unlock()
 	return cerr // (the channel is closed all the same: a transport that complains while shutting down)
+}
+
+// checkHeld: a channel may hand the very bytes it was given on to its peer (channel.Direct does: "without encoding or
+// copying"), who reads them whenever it gets round to it. So what was passed to Send stays what it was: the sender
+// does not write into it again - not for the next message either. The channel keeps the slices it was given and
+// looks at them again at every later Send and at Close; a changed one is logged (BufferReused), once.
+func (c *VChan) checkHeld() {
+	c.mu.Lock()
+	var changed []int
+	for i := range c.held {
+		if c.held[i] != nil && !bytes.Equal(c.held[i], c.heldCopy[i]) {
+			changed = append(changed, i)
+			c.held[i] = nil
+		}
+	}
+	c.mu.Unlock()
+	for _, i := range changed {
+		c.Rec.Log("BufferReused", "ch", c.Name, "n", i+1)
+	}
 }
 
 // FailClose makes Close report err (after closing the channel as usual).
